@@ -65,6 +65,14 @@ func edifactHandleEOD(context *EncoderContext, buffer []byte) error {
 
 		available := context.GetSymbolInfo().GetDataCapacity() - context.GetCodewordCount()
 		remaining := context.GetRemainingCharacters()
+		// the rest is encoded in ASCII, where an extended character takes two codewords (upper shift)
+		if remaining <= 2 {
+			for _, ch := range context.msg[context.pos : context.pos+remaining] {
+				if HighLevelEncoder_isExtendedASCII(ch) {
+					remaining++
+				}
+			}
+		}
 		// The following two lines are a hack inspired by the 'fix' from https://sourceforge.net/p/barcode4j/svn/221/
 		if remaining > available {
 			e := context.UpdateSymbolInfoByLength(context.GetCodewordCount() + 1)
